@@ -152,6 +152,13 @@ func (s *ccSys) apply(op string) {
 	case "del":
 		s.c.Del(f[1])
 		s.drop(f[1])
+	case "delset":
+		// invalidate and repopulate in one step: the new entry has its own, fresh life time
+		s.c.Del(f[1])
+		s.drop(f[1])
+		v := fmt.Sprintf("v%d", s.n)
+		s.c.Set(f[1], v)
+		s.modelSet(f[1], v, s.expire)
 	case "take":
 		calls := 0
 		fetchErr := errors.New("fetch failed")
@@ -296,7 +303,7 @@ func TestVerifCacheHistories(t *testing.T) {
 		}
 		c := c
 		lo, hi := ccWindow(c.expire)
-		ops := []string{"set:a", "set:b", "set:c", "setchk:a", "setx:a:2", "setx:a:200", "setx:a:310", "get:a", "get:b", "get:c", "del:a", "del:b",
+		ops := []string{"set:a", "set:b", "set:c", "setchk:a", "setx:a:2", "setx:a:200", "setx:a:310", "get:a", "get:b", "get:c", "del:a", "del:b", "delset:a",
 			"take:a:ok", "take:a:err", "take:a:panic", "take:b:ok", "draw:lo", "draw:hi", "t:1", fmt.Sprintf("t:%d", lo-1), fmt.Sprintf("t:%d", hi+1), "t:205", "t:320"}
 		vrt.BFS(vrt.Options{Name: fmt.Sprintf("cache/limit=%d/expire=%ds/phase=%d", c.limit, c.expire, c.phase), Budget: vrt.FairBudget(1)}, depth, ops, func(r *vrt.Run, hist []string) vrt.Step {
 			s := newCcSys(r, c.limit, c.expire, c.phase)
